@@ -54,6 +54,7 @@ inductive Cmd
   | longData                                          -- no reply, known or not
   | fieldList (p : Plan)
   | changeUser (ok : Bool)                            -- COM_CHANGE_USER: accepted / denied
+  | changeUserRaised                                  -- COM_CHANGE_USER whose exchange fails with an exception
   | unknown                                           -- unsupported command byte
   | malformed                                         -- a payload the parser rejects (`struct.error` etc.)
 deriving Repr
@@ -99,6 +100,7 @@ def scriptOf (dep : Bool) : Cmd → List Op
   | .changeUser ok =>
     if ok then [.emit .ok, .drain, .call .reset false false]
     else [.emit (.err .accessDenied), .drain, .raise_ .authFailed]
+  | .changeUserRaised => [.emit (.err .generic), .drain, .raise_ .authFailed]
   | .unknown => [.raise_ .mysqlError]
   | .malformed => [.raise_ .generic]
 
